@@ -110,7 +110,7 @@ def sh2(prog):
         for cs in te.calls:
             if cs.callee.name == "new" and "BddNode" in cs.callee.key():
                 lo, hi = strip(cs.args[1]), strip(cs.args[2])
-                ok = (mir.is_call(lo, name) and mir.is_call(hi, name) and mir.is_call(strip(lo[2][1])) and mir.is_call(strip(hi[2][1]))
+                ok = (mir.is_call(lo, fn.name) and mir.is_call(hi, fn.name) and mir.is_call(strip(lo[2][1])) and mir.is_call(strip(hi[2][1]))
                       and strip(lo[2][1])[1].name.startswith("low") and strip(hi[2][1])[1].name.startswith("high"))
                 out.append(inst("SH", "%s:SH2:positions" % fn.npath, OK if ok else VIOLATION, fn, cs.line,
                                 "rebuilt node keeps (low, high) positions" if ok else
